@@ -949,6 +949,7 @@ type outcome struct {
 	c0, s0   bool
 	cids     string
 	ccids    string
+	vers     string
 	acc      string
 	echo     string
 	cleft    int
@@ -964,8 +965,8 @@ func (o *outcome) txt() string {
 	if o.ztxt != "" {
 		z = " " + o.ztxt
 	}
-	return z2(fmt.Sprintf("dial=%s hang=%s t=%d bound=%d att=%d cv=%d sv=%d calpn=%s salpn=%s c0=%s s0=%s cids=%s ccids=%s acc=%s echo=%s cleft=%d sleft=%d redial=%s",
-		o.dial, boolTxt(o.hang), o.t.Nanoseconds(), o.bound.Nanoseconds(), o.attempts, o.cv, o.sv, o.calpn, o.salpn, boolTxt(o.c0), boolTxt(o.s0), o.cids, o.ccids, o.acc, o.echo, o.cleft, o.sleft, o.redial), z)
+	return z2(fmt.Sprintf("dial=%s hang=%s t=%d bound=%d att=%d vers=%s cv=%d sv=%d calpn=%s salpn=%s c0=%s s0=%s cids=%s ccids=%s acc=%s echo=%s cleft=%d sleft=%d redial=%s",
+		o.dial, boolTxt(o.hang), o.t.Nanoseconds(), o.bound.Nanoseconds(), o.attempts, o.vers, o.cv, o.sv, o.calpn, o.salpn, boolTxt(o.c0), boolTxt(o.s0), o.cids, o.ccids, o.acc, o.echo, o.cleft, o.sleft, o.redial), z)
 }
 
 func z2(a, b string) string { return a + b }
@@ -991,7 +992,7 @@ func liveCount(t *quic.Transport) int {
 
 // run executes the scenario inside a synctest bubble.
 func (sc *scenario) run() (out *outcome) {
-	out = &outcome{cids: "-", ccids: "-", acc: "-", echo: "-", redial: "-", calpn: "-", salpn: "-"}
+	out = &outcome{cids: "-", ccids: "-", vers: "-", acc: "-", echo: "-", redial: "-", calpn: "-", salpn: "-"}
 	start := time.Now()
 	savedRand := rand.Reader
 	rand.Reader = &detRand{r: vh.NewRand(sc.seed ^ 0x5eed)}
@@ -1042,6 +1043,8 @@ func (sc *scenario) run() (out *outcome) {
 			return
 		}
 		utr = &quic.UTransport{Transport: sc.ctr, QUICSpec: &spec}
+	} else if sc.spec.client == "uplain" {
+		utr = &quic.UTransport{Transport: sc.ctr} // no QUICSpec: the plain connection, dialed through UTransport.doDial
 	}
 	ctls := clientTLS(start)
 	dial := func(ctx context.Context) (*quic.Conn, error) {
@@ -1119,6 +1122,16 @@ func (sc *scenario) run() (out *outcome) {
 	conns := append([]*quic.Conn(nil), sc.conns...)
 	sc.mu.Unlock()
 	out.attempts = len(conns)
+	{
+		var vs []string
+		for _, c := range conns {
+			vs = append(vs, fmt.Sprint(c.VerifGateState().Version))
+		}
+		out.vers = strings.Join(vs, ",")
+		if out.vers == "" {
+			out.vers = "-"
+		}
+	}
 
 	if r.err == nil {
 		cs := r.c.ConnectionState()
